@@ -394,7 +394,11 @@ func c14Apply(h *Hub, op *Op, jobsCfg map[string]map[string]any, keys map[string
 			stats["job_runs"]++
 		}
 	case "registerClient":
-		h.Full.Web.Core.RegisterClient(&security.ClientInfo{ClientID: op.S, PublicKey: keys[op.S]})
+		pk := keys[op.S]
+		if op.N == 1 {
+			pk = append([]byte("second key of "+op.S+"\n"), pk...) // the client is registered again with another key
+		}
+		h.Full.Web.Core.RegisterClient(&security.ClientInfo{ClientID: op.S, PublicKey: pk})
 	case "deleteClient":
 		h.Full.Web.Core.RegisterClient(&security.ClientInfo{ClientID: op.S, Deleted: true})
 	case "setAcl":
